@@ -274,6 +274,7 @@ async fn async_forward_id_collision() -> Result<String, String> {
     let addr = listener.local_addr().unwrap();
     let (seen_tx, seen_rx) = std::sync::mpsc::channel::<Vec<u64>>();
     let (go_tx, go_rx) = std::sync::mpsc::channel::<()>();
+    let (stray_tx, stray_rx) = std::sync::mpsc::channel::<Option<(u64, String)>>();
     let server = std::thread::spawn(move || {
         let (stream, _) = listener.accept().unwrap();
         let mut reader = std::io::BufReader::new(stream.try_clone().unwrap());
@@ -289,6 +290,11 @@ async fn async_forward_id_collision() -> Result<String, String> {
         if go_rx.recv_timeout(Duration::from_secs(60)).is_err() {
             return;
         }
+        // a refused forward must not have put anything on the wire
+        let _ = reader.get_ref().set_read_timeout(Some(Duration::from_millis(300)));
+        let stray = repe::read_message(&mut reader).ok().map(|m| (m.header.id, m.query_utf8().to_string()));
+        let _ = stray_tx.send(stray);
+        let _ = reader.get_ref().set_read_timeout(None);
         for req in requests.into_iter().rev() {
             let response = repe::Message::builder()
                 .id(req.header.id)
@@ -333,6 +339,11 @@ async fn async_forward_id_collision() -> Result<String, String> {
         }
     }
     let _ = tokio::task::spawn_blocking(move || server.join()).await;
+    if let Ok(Some((id, q))) = stray_rx.try_recv() {
+        if report.iter().all(|r| r.ends_with("refused")) {
+            return Err(format!("a forward that was refused for its colliding id still reached the wire: the server read a fifth frame with id {id} and query {q:?}"));
+        }
+    }
     Ok(format!("4 in-flight calls answered; {}", report.join("; ")))
 }
 
@@ -652,6 +663,10 @@ fn peer_broadcast_payloads() -> Result<String, String> {
         hits: Arc<Mutex<Vec<Hit>>>,
     }
     impl repe::PeerSink for Rec {
+        // peer 3's transport reports closed: it is still PRESENT in the registry, so a broadcast addresses it and reports its result
+        fn is_connected(&self) -> bool {
+            self.id != 3
+        }
         fn send_notify(&self, method: &str, body: repe::NotifyBody) -> Result<(), repe::PeerSendError> {
             let fmt = body.body_format() as u16;
             let via_ref = body.as_bytes().to_vec();
@@ -1185,6 +1200,13 @@ fn client_emission_parity() -> Result<String, String> {
         }
     }
     let val = json!({"k": [1, 2, {"z": null}]});
+    // typed helpers and their with_timeout twins: JSON twice, BEVE twice
+    for _ in 0..2 {
+        want.push(shape(&repe::Message::builder().query_str("/tj").query_format(repe::QueryFormat::JsonPointer).body_json(&val).unwrap().build()));
+    }
+    for _ in 0..2 {
+        want.push(shape(&repe::Message::builder().query_str("/tb").query_format(repe::QueryFormat::JsonPointer).body_beve(&val).unwrap().build()));
+    }
     want.push(shape(&repe::Message::builder().query_str("/j").query_format(repe::QueryFormat::JsonPointer).body_json(&val).unwrap().build()));
     want.push(shape(&repe::Message::builder().notify(true).query_str("/nj").query_format(repe::QueryFormat::JsonPointer).body_json(&val).unwrap().build()));
     let mut seen: Vec<(&str, Vec<Frame>)> = Vec::new();
@@ -1202,6 +1224,30 @@ fn client_emission_parity() -> Result<String, String> {
                 _ => {
                     rt.block_on(wclient.notify_with_formats(path, qf, body, bf)).map_err(e)?;
                     rt.block_on(wclient.call_with_formats(path, qf, body, bf)).map_err(e)?;
+                }
+            }
+        }
+        {
+            // the peer answers {"ok":true} as JSON; a typed BEVE call cannot decode that, which is irrelevant here: only the request frame is compared
+            let t = Duration::from_secs(30);
+            match which {
+                "blocking" => {
+                    let _ = client.call_typed_json::<_, _, Value>("/tj", &val);
+                    let _ = client.call_typed_json_with_timeout::<_, _, Value>("/tj", &val, t);
+                    let _ = client.call_typed_beve::<_, _, Value>("/tb", &val);
+                    let _ = client.call_typed_beve_with_timeout::<_, _, Value>("/tb", &val, t);
+                }
+                "async" => {
+                    let _ = rt.block_on(aclient.call_typed_json::<_, _, Value>("/tj", &val));
+                    let _ = rt.block_on(aclient.call_typed_json_with_timeout::<_, _, Value>("/tj", &val, t));
+                    let _ = rt.block_on(aclient.call_typed_beve::<_, _, Value>("/tb", &val));
+                    let _ = rt.block_on(aclient.call_typed_beve_with_timeout::<_, _, Value>("/tb", &val, t));
+                }
+                _ => {
+                    let _ = rt.block_on(wclient.call_typed_json::<_, _, Value>("/tj", &val));
+                    let _ = rt.block_on(wclient.call_typed_json_with_timeout::<_, _, Value>("/tj", &val, t));
+                    let _ = rt.block_on(wclient.call_typed_beve::<_, _, Value>("/tb", &val));
+                    let _ = rt.block_on(wclient.call_typed_beve_with_timeout::<_, _, Value>("/tb", &val, t));
                 }
             }
         }
